@@ -496,10 +496,19 @@ func (e *FnEnc) binopTerm(f *frame, op token.Token, a, b SV, ta, tb types.Type, 
 				f.assume(fmt.Sprintf("(= (slen %s) (bvadd (slen %s) (slen %s)))", n, x, y))
 			}
 			return n
-		case token.EQL:
-			return fmt.Sprintf("(= %s %s)", x, y)
-		case token.NEQ:
-			return fmt.Sprintf("(not (= %s %s))", x, y)
+		case token.EQL, token.NEQ:
+			// comparison with "": exactly the strings of length 0
+			empty := e.R.strConst("")
+			eq := fmt.Sprintf("(= %s %s)", x, y)
+			if x == empty {
+				eq = fmt.Sprintf("(= (slen %s) #x0000000000000000)", y)
+			} else if y == empty {
+				eq = fmt.Sprintf("(= (slen %s) #x0000000000000000)", x)
+			}
+			if op == token.NEQ {
+				return not(eq)
+			}
+			return eq
 		case token.LSS, token.LEQ, token.GTR, token.GEQ:
 			e.R.extra("(declare-fun sless (Str Str) Bool)")
 			switch op {
